@@ -1009,7 +1009,7 @@ def resolve_symbol(blockChains, loc_db, dst_interval=None):
             prev_chain = fixed_chains[i - 1]
             next_chain = fixed_chains[i]
 
-            if prev_chain.offset_max + chain.max_size < next_chain.offset_min:
+            if prev_chain.offset_max + chain.max_size <= next_chain.offset_min:
                 new_chains = prev_chain.merge(chain)
                 fixed_chains[i - 1:i] = new_chains
                 fixed = True
